@@ -10,6 +10,7 @@ import Driver.Partial
 import Driver.Eq
 import Driver.Serialize
 import Driver.Flags
+import Driver.Threads
 open Lean Driver
 
 def dispatch (req : Json) : R Json := do
@@ -21,6 +22,7 @@ def dispatch (req : Json) : R Json := do
   | "eq" => Driver.Eq.handle req
   | "serialize" => Driver.Serialize.handle req
   | "flags" => Driver.Flags.handle req
+  | "threads" => Driver.Threads.handle req
   | "guard" => Driver.Errors.handleGuard req
   | "decorate" => Driver.Errors.handleDecorate req
   | _ => throw "bad-op"
